@@ -72,7 +72,17 @@ func propRecover(t *rapid.T) {
 	dlen := gen.Sampled([]int{32, 32, 32, 32, 32, 32, 40, 48, 64, 64, 31, 0}).Draw(t, "dlen")
 	digest := gen.Bytes(t, dlen, dlen, "digest")
 	if dlen >= 32 {
-		switch gen.Sampled([]string{"random", "random", "random", "random", "e=0", "e>=n", "e>=n", "Q=O"}).Draw(t, "ekind") {
+		switch gen.Sampled([]string{"random", "random", "random", "random", "e=0", "e>=n", "e>=n", "Q=O", "exceptional-window", "exceptional-window"}).Draw(t, "ekind") {
+		case "exceptional-window":
+			// recovery evaluates (-e/r)*G + (s/r)*R: with R = k*G, solve e and s so that an accumulator started
+			// at (s/r)*R meets the fixed-base table entry it is about to add (see gen.ExceptionalDouble)
+			k, u1, u2, kind := gen.ExceptionalDouble(t, "xw")
+			R, haveR = ref.BaseMul(k), true
+			if r = ref.Mod(R.X, ref.N); r.Sign() != 0 {
+				s = ref.MulM(u2, r, ref.N)
+				copy(digest, ref.B32(ref.NegM(ref.MulM(u1, r, ref.N), ref.N)))
+				rsrc = kind
+			}
 		case "e=0":
 			copy(digest, make([]byte, 32))
 		case "e>=n":
